@@ -660,7 +660,13 @@ impl RocksDBStateMachine {
         let cf = db
             .cf_handle(STATE_MACHINE_CF)
             .ok_or_else(|| StorageError::DbError("STATE_MACHINE_CF not found".into()))?;
-        let iter = db.iterator_cf_opt(&cf, opts, IteratorMode::From(prefix, Direction::Forward));
+        // One snapshot for the entries and the revision: apply_chunk writes the applied index in
+        // the same atomic batch as the data, so the index read from this snapshot is exactly the
+        // revision of the entries read from it. (Reading the in-memory counter after the
+        // iteration let a concurrent apply slip in between: entries older than the revision,
+        // and a scan-then-watch client missed those updates.)
+        let snap = db.snapshot();
+        let iter = snap.iterator_cf_opt(&cf, opts, IteratorMode::From(prefix, Direction::Forward));
 
         let mut entries = Vec::new();
         for item in iter {
@@ -673,7 +679,18 @@ impl RocksDBStateMachine {
         #[cfg(d_engine_verif)]
         d_engine_core::verif::point("rsm_scan:after_iter", None, 0, 0);
 
-        let revision = self.last_applied_index.load(Ordering::SeqCst);
+        let meta_cf = db
+            .cf_handle(STATE_MACHINE_META_CF)
+            .ok_or_else(|| StorageError::DbError("State machine meta CF not found".into()))?;
+        let revision = match snap
+            .get_cf(&meta_cf, LAST_APPLIED_INDEX_KEY)
+            .map_err(|e| StorageError::DbError(e.to_string()))?
+        {
+            Some(bytes) if bytes.len() == 8 => u64::from_be_bytes([
+                bytes[0], bytes[1], bytes[2], bytes[3], bytes[4], bytes[5], bytes[6], bytes[7],
+            ]),
+            _ => 0,
+        };
         Ok(ScanResult { entries, revision })
     }
 
